@@ -276,8 +276,8 @@ theorem c06_src_varuint_len (v : Int) (hv : 0 ≤ v) :
     have := byteLen_model v.toNat
     simp only [Generated.varUintByteLen, py_bitLength_eq_bitLen, hn]
     src_arith
-  refine ⟨by simp only [Generated.varUintIsZero_sideOk] <;> src_arith,
-          by simp only [Generated.varUintByteLen_sideOk] <;> src_arith, ?_, key⟩
+  refine ⟨by simp only [Generated.varUintIsZero_sideOk]; src_arith,
+          by simp only [Generated.varUintByteLen_sideOk]; src_arith, ?_, key⟩
   by_cases h0 : v = 0
   · subst h0; simp [Generated.varUintIsZero, byteLenU]
   · rw [key]; simp [Generated.varUintIsZero, h0]
@@ -288,8 +288,8 @@ theorem c06_src_varuint_len (v : Int) (hv : 0 ≤ v) :
 theorem c06_src_varint_len (v : Int) :
     Generated.varIntIsZero_sideOk v ∧ Generated.varIntByteLen_sideOk v ∧
     (if Generated.varIntIsZero v then 0 else Generated.varIntByteLen v) = byteLenS v := by
-  refine ⟨by simp only [Generated.varIntIsZero_sideOk] <;> src_arith,
-          by simp only [Generated.varIntByteLen_sideOk] <;> src_arith, ?_⟩
+  refine ⟨by simp only [Generated.varIntIsZero_sideOk]; src_arith,
+          by simp only [Generated.varIntByteLen_sideOk]; src_arith, ?_⟩
   by_cases h0 : v = 0
   · subst h0; simp [Generated.varIntIsZero, byteLenS]
   · have hz : Generated.varIntIsZero v = false := by simp [Generated.varIntIsZero, h0]
